@@ -183,6 +183,14 @@ fn total_run(seed: u64, n: u64, target: usize, path: &str) -> Value {
     let mut calls = 0u64;
     for k in 0..n {
         let bytes = match k % 5 {
+            // runs with a background / reverse video that are 70..260 columns wide on one line (block rows are built per column)
+            0 if k % 15 == 0 => {
+                let w = [70usize, 80, 81, 100, 239, 240, 241, 260][(k as usize / 15) % 8];
+                let mut v = format!("lead \x1b[{}m", ["44", "7", "48;5;200", "7;31"][(k as usize / 15) % 4]).into_bytes();
+                v.extend((0..w).map(|i| b'a' + (i % 26) as u8));
+                v.extend_from_slice(b"\x1b[0m tail\n");
+                v
+            }
             0 => gen::gen_stream(&mut r, target, gen::Flavor::Utf8),
             1 => gen::gen_styled_text(&mut r, target, true),
             2 => String::from_utf8_lossy(&gen::gen_stream(&mut r, target, gen::Flavor::Full)).into_owned().into_bytes(),
